@@ -341,7 +341,9 @@ def check_C09(ctx):
         n = dict(c); n['id'] = '%s/random/%d' % (c['id'], k); n['twin'] = c['id']; n['label'] = c['variant'] + '/junk-batch'; n['inject'] = inj
         scen.append(n)
     # the same junk with trace logging on (log statements that format packet bytes run only then)
-    for s0 in [x for x in list(scen) if x.get('twin') and '/random/' not in x['id']][:: (6 if ctx.quick() else 1)]:
+    tw = [x for x in list(scen) if x.get('twin') and '/random/' not in x['id']]
+    special = [x for x in tw if any('odd_option' in (i.get('tag') or '') for i in x.get('inject', []))]      # option layouts that only log statements decode
+    for s0 in special + [x for x in tw[:: (6 if ctx.quick() else 1)] if x not in special]:
         v = dict(s0); v['id'] = s0['id'] + '/verbose'; v['label'] = s0['label'] + '/trace-logging'; v['extra'] = dict(s0.get('extra') or {}, verbose=True)
         c = dict([x for x in scen if x['id'] == s0['twin']][0]); c['id'] = c['id'] + '/verbose/' + str(len(scen)); v['twin'] = c['id']
         scen += [c, v]
